@@ -106,6 +106,13 @@ for n in (2, 3):
           given=['spec.cov.valid_input(p.intervals, p.slopes)', 'b >= 0', 'x >= 0', 'T > 0'],
           prove=[('original-unchanged', 'spec.cov.edit_copy_keeps_original(p, b, s) and spec.cov.wf(p)'),
                  ('copy-well-formed', 'spec.cov.wf(spec.cov.edit_copy_of(p, b, s))')])
+    lemma('second-decode-of-the-same-dictionary-after-editing-the-first-copy[n=%d]' % n, P,
+          forall=dict(p=built(n), b=Real(0., 1.2), s=Real(-50., 50.)),
+          given=['spec.cov.valid_input(p.intervals, p.slopes)', 'b >= 0'],
+          prove=[('is-the-object-as-written',
+                  'spec.cov.reload_twice_with_an_edit_between(p, b, s).intervals == p.intervals and '
+                  'spec.cov.reload_twice_with_an_edit_between(p, b, s).slopes == p.slopes'),
+                 ('well-formed', 'spec.cov.wf(spec.cov.reload_twice_with_an_edit_between(p, b, s))')])
 
 # a breakpoint below all existing ones (outside the coverage domain, but accepted by insert): the lists stay ordered pairs
 contract(K + '.insert', P, label='below-every-breakpoint', shapes=dict(n=[1, 2, 3]),
@@ -114,3 +121,6 @@ contract(K + '.insert', P, label='below-every-breakpoint', shapes=dict(n=[1, 2, 
          ensures=[('view', 'spec.cov.inserted(old(self.intervals), old(self.slopes), interval, slope, self.intervals, self.slopes)'),
                   ('breakpoints-ascending', 'all(self.intervals[k - 1] <= self.intervals[k] for k in range(1, len(self.intervals)))'),
                   ('new-pair-first', 'self.intervals[0] == interval and self.slopes[0] == slope')], cross_check=False)
+
+from contracts import helpers
+helpers.install(P, ('convert_unit', [('kcal', ['J', 'kJ', 'cal', 'kcal', 'eV']), ('mol', ['mol', 'molec', 'molecule'])]))
